@@ -4,8 +4,8 @@ from . import common as C
 
 MANIFEST = dict(
    technique="Lean 4 proof about a transcription of FlattenError/TreeifyError/FormatError/PrettifyError/ToDotPath (count, placement and path-injectivity theorems over all issue trees and all paths) + whole-table theorems over a go/ast translation of gozod.go's re-exports and errors.go's thin entry points + differential correspondence of the model and of an independent grouping oracle against the real formatters, through every exported entry point, on generated and Parse-produced ZodErrors",
-   text="Theorems c19_flatten_count/_place, c19_tree_count/_place, c19_format_count/_place (partial: no path segment equal to the reserved key \"_errors\"; witness theorems show the loss inside that region), c19_prettify_count/_place, c19_nonempty prove for every issue list (any codes, typed paths, union branches and sub-issues nested to any depth) that each report carries exactly one message per issue (per nested leaf for wrapper issues in FormatError), filed at the position the path denotes. c19_dotpath_esc_injective proves for ToDotPath as it stands (quoted keys escaped, since c7ce73a) that two different paths of any length with arbitrary keys never render alike, so PrettifyError, PrettifyErrorWithFormatter and err.Error() (c19_error_eq_prettify) name every position unambiguously. c19_exports_are_internal/_cover, c19_wrappers_as_expected, c19_errors_go_accounted and c19_error_method_as_expected are decided over a table regenerated from gozod.go and internal/issues/errors.go on every run: each exported formatter is the internal function of the same name, each thin entry point hands the unchanged error to the transcribed function with defaultIssueMapper of the right formatter, and no function of errors.go is unaccounted for. The hand-written model is tied to /repo by running model, spec oracle and the real formatters — through the plain entry points, err.Error(), the WithMapper/WithFormatter variants with custom mappers and formatters, and SetFormatter — on thousands of synthesised issue trees and real failing Parse calls and comparing canonical renderings; structure fingerprints of the 16 Go functions involved aim the run when one is edited.",
-   note="Trusted: Lean kernel; axioms propext/Classical.choice/Quot.sound only; the Go harness, hex line protocol and comparer; the go/ast translator (source text only). The model is a hand transcription validated on generated cases. Issue.msg stands for mapper(issue): the default formatter's text is taken from the library, custom mappers/formatters are computed by the harness. Paths are string keys and non-negative ints; other element types, negative ints and a nil *ZodError are outside the model. FormatError's reserved key \"_errors\" is an open known finding (pending/C19-format-reserved-key.diff stops the loss of the message; the placement cannot be repaired within the report shape).",
+   text="Theorems c19_flatten_count/_place, c19_tree_count/_place, c19_format_count (full since cef00ff), c19_format_place (exact outside the reserved key \"_errors\", modulo reserved segments for every error: c19_format_place_strip; a witness theorem shows the misplacement inside that region), c19_prettify_count/_place, c19_nonempty prove for every issue list (any codes, typed paths, union branches and sub-issues nested to any depth) that each report carries exactly one message per issue (per nested leaf for wrapper issues in FormatError), filed at the position the path denotes. c19_dotpath_esc_injective proves for ToDotPath as it stands (quoted keys escaped, since c7ce73a) that two different paths of any length with arbitrary keys never render alike, so PrettifyError, PrettifyErrorWithFormatter and err.Error() (c19_error_eq_prettify) name every position unambiguously. c19_exports_are_internal/_cover, c19_wrappers_as_expected, c19_errors_go_accounted and c19_error_method_as_expected are decided over a table regenerated from gozod.go and internal/issues/errors.go on every run: each exported formatter is the internal function of the same name, each thin entry point hands the unchanged error to the transcribed function with defaultIssueMapper of the right formatter, and no function of errors.go is unaccounted for. The hand-written model is tied to /repo by running model, spec oracle and the real formatters — through the plain entry points, err.Error(), the WithMapper/WithFormatter variants with custom mappers and formatters, and SetFormatter — on thousands of synthesised issue trees and real failing Parse calls and comparing canonical renderings; structure fingerprints of the 16 Go functions involved aim the run when one is edited.",
+   note="Trusted: Lean kernel; axioms propext/Classical.choice/Quot.sound only; the Go harness, hex line protocol and comparer; the go/ast translator (source text only). The model is a hand transcription validated on generated cases. Issue.msg stands for mapper(issue): the default formatter's text is taken from the library, custom mappers/formatters are computed by the harness. Paths are string keys and non-negative ints; other element types, negative ints and a nil *ZodError are outside the model. FormatError's reserved key \"_errors\" is an open known finding for the placement only (since cef00ff no message is lost; the placement cannot be repaired within the report shape).",
    design="DESIGN.md §5 C19; notes/C19.md")
 
 MODULES = ["Gozod.Proofs.C19", "Gozod.Proofs.C19Dot", "Gozod.Proofs.C19Exports"]
@@ -13,10 +13,10 @@ GEN = os.path.join(C.LEAN, "Gozod", "Gen", "C19Exports.lean")
 THEOREMS = ["Gozod.C19." + t for t in [
     "c19_flatten_count", "c19_flatten_form", "c19_flatten_field", "c19_flatten_place",
     "c19_tree_count", "c19_tree_place",
-    "formatError_eq", "c19_format_count_partial", "c19_format_count_full_false",
-    "c19_format_place_partial", "c19_format_place_full_false",
+    "formatError_eq", "c19_format_count", "legacy_fileAt_drops_reserved",
+    "c19_format_place_partial", "c19_format_place_strip", "c19_format_place_full_false",
     "c19_prettify_count", "c19_prettify_place", "c19_dotpath_injective_partial", "c19_dotpath_injective_full_false", "dotpath_empty_key",
-    "c19_nonempty", "c19_nonempty_format_full_false",
+    "c19_nonempty",
     "esc_split", "segDotEsc_split", "c19_dotpath_esc_injective", "c19_dotpath_esc_nonempty",
     "dotPath_eq_esc", "c19_dotpath_injective_escfree", "plainPath_escFree", "dotpath_backslash_outside",
     "c19_exports_are_internal", "c19_exports_cover", "c19_wrappers_as_expected", "c19_errors_go_accounted",
